@@ -88,6 +88,8 @@ def enumerate_cases(tier, scope):
             singles.append(['create', prog, 1, persist])
             for nowait in (False, True):
                 singles.append(['launch', prog, 1, persist, nowait])
+            if prog in ('W', 'F'):
+                singles.append(['launch', prog, 1, persist, 'default'])
     singles += [['continue', 1, None, False], ['continue', 1, 'a', True], ['bogus']]
     singles += [['execute', 'F', 1, nowait, no_reply] for nowait in (False, True) for no_reply in (False, True)]
     if scope == 'single':
@@ -265,6 +267,10 @@ def execute(case):
                 ident_loader = custom if loader is not None else None
                 if kind == 'create':
                     body = process_comms.create_create_body(classes_by_prog[prog], init_kwargs={'pid': pid}, persist=persist, loader=ident_loader)
+                elif nowait == 'default':
+                    # the helper's own default for nowait (True: the reply is the pid, the caller does not wait for the end)
+                    body = process_comms.create_launch_body(classes_by_prog[prog], init_kwargs={'pid': pid}, persist=persist, loader=ident_loader)
+                    nowait = True
                 else:
                     body = process_comms.create_launch_body(classes_by_prog[prog], init_kwargs={'pid': pid}, persist=persist, loader=ident_loader, nowait=nowait)
                 fut = send(body)
